@@ -96,7 +96,8 @@ def run(tier, seed, replay):
             distinct = max(distinct, res.get("distinct", 0))
     # (3) concurrent API traffic, real scheduling, perturbed at the hook points; plus the race detector
     rounds = 300 if not big else 3000
-    outs = common.run_parallel(binary, "TestStress", [{"seed": seed * 1000 + i, "params": {"rounds": rounds // 8}} for i in range(8)], 1500)
+    tfiles = [vlib.os.path.join(work, "trace-%d.ndjson" % i) for i in range(8)]
+    outs = common.run_parallel(binary, "TestStress", [{"seed": seed * 1000 + i, "params": {"rounds": rounds // 8, "trace_out": tfiles[i]}} for i in range(8)], 1500)
     nstress = 0
     for res, out, rc in outs:
         if res is None and ("fatal error" in out or "panic:" in out):
@@ -104,6 +105,29 @@ def run(tier, seed, replay):
             continue
         res = common.absorb(v, res, out, rc, "concurrent stress")
         nstress += res["behaviours"]
+    # (3b) trace validation: every recorded concurrent history must be linearizable w.r.t. the spec's atomic operations
+    tdir = vlib.scratch("c08trace")
+    tpath = vlib.os.path.join(tdir, "trace.ndjson")
+    nev = 0
+    with open(tpath, "w") as fo:
+        for tf in tfiles:
+            if vlib.os.path.exists(tf):
+                for line in open(tf):
+                    fo.write(line)
+                    nev += 1
+    if nev:
+        tr = vlib.tlc(SPEC, "TraceCredStore", "TraceCredStore.cfg", {}, workers=1, timeout=1500, edges=False, extra_files=[tpath], keep_out=True,
+                      jvm=["-Dtlc2.tool.queue.IStateQueue=StateDeque"], dump_trace=False)
+        m = re.search(r'"TRACE-HW", (\d+), (\d+)', tr.out)
+        if not m:
+            raise vlib.Broken("trace validation produced no verdict:\n" + tr.out[-1500:])
+        hw, n = int(m.group(1)), int(m.group(2))
+        v.coverage["trace_validation"] = {"events": n, "accepted_prefix": hw - 1, "states": tr.distinct}
+        if hw != n + 1:
+            lines = open(tpath).read().splitlines()
+            lo = max(0, hw - 12)
+            v.violation("cred.concurrent/not-linearizable", "a recorded concurrent API history is not explained by any order of the specification's atomic "
+                        "operations: event %d (%s) cannot follow" % (hw, lines[hw - 1] if hw - 1 < len(lines) else "?"), {"events": lines[lo:hw + 2], "first_rejected_index": hw})
     rbin = vlib.build_driver("c08", vlib.scratch("c08race"), race=True)
     outs = common.run_parallel(rbin, "TestStress", [{"seed": seed * 77 + i, "params": {"rounds": (rounds // 4) // 4}} for i in range(4)], 1500,
                                env_extra={"GORACE": "halt_on_error=0"})
